@@ -119,6 +119,10 @@ def fCompareOld (a b tol : Float32) : Bool :=
 def dcmpBits (x y : UInt64) : Bool := dCompareOld (Float.ofBits x) (Float.ofBits y) 0.001
 def fcmpBits (x y : UInt32) : Bool := fCompareOld (Float32.ofBits x) (Float32.ofBits y) (0.01 : Float).toFloat32
 
+def f32Arith : CArith Float Float32 :=
+  { zero := 0.0, ofW := fun w => w.toFloat32, add := fun a b => a + b,
+    divNat := fun a n => a / Float32.ofNat n, gt := fun a b => decide (a > b) }
+
 def floatArith (symfrac : Float) : WArith Float :=
   { zero := 0.0, add := (· + ·), isCons := fun r tot => r > 0.0 && r / tot >= symfrac }
 
@@ -372,6 +376,11 @@ def step (s : S) (line : String) : S × String :=
     match s.a, arg? ws "symfrac" with
     | some m, some t =>
       let bits := t.toList.foldl (fun acc c => acc * 16 + (hexVal c).getD 0) 0
+      if (argNat? ws "cons").getD 0 == 1 then
+        match reasonableRFCons (floatArith (Float.ofBits (UInt64.ofNat bits))) f32Arith m (m.wgt.map Float.ofBits) with
+        | some rf => (s, "ok ss=" ++ oStr (some rf))
+        | none => (s, "fault")      -- text mode: `msa->abc->K` with `msa->abc == NULL`
+      else
       match reasonableRF (floatArith (Float.ofBits (UInt64.ofNat bits))) m (m.wgt.map Float.ofBits) with
       | some rf => (s, "ok ss=" ++ oStr (some rf))
       | none => (s, "fault")
